@@ -255,10 +255,17 @@ def replay_gni(x, o, scale, mg, raw=True, tag=''):
                 return {'kind': 'error', 'error': 'EMDSiftCovergeError'}, niters, 'converge-error'
             niters += 1
             mg.see_ext(_gap(proto, scale, raw and niters == 1))
+            if xo.get('parabolic_extrema'):
+                # refined locations are floats: the re-padding test max(locs) < n or min(locs) >= 0 can sit on a tie
+                for mode in ('peaks', 'troughs'):
+                    locs, _ = S.get_padded_extrema(proto, mode=mode, **xo)
+                    if locs is not None:
+                        mg.see_ext(float(min(min(abs(v), abs(v - len(X))) for v in locs)))
             upper = S.interp_envelope(proto, mode='upper', **eo, extrema_opts=xo)
             lower = S.interp_envelope(proto, mode='lower', **eo, extrema_opts=xo)
             if upper is None or lower is None:
-                flag = False
+                # the sift as a whole is finished only when the input itself has too few extrema (returned unmodified)
+                flag = niters != 1
                 exit_ = 'no-extrema' if niters == 1 else 'extrema-vanished'
                 break
             avg = np.mean([upper, lower], axis=0)
@@ -282,13 +289,12 @@ def replay_gni(x, o, scale, mg, raw=True, tag=''):
                 break
             proto = proto - step * avg
         if o.get('energy') is not None:
-            res = X - proto
-            if float(np.sum(res ** 2)) > 0 and float(np.sum(X ** 2)) > 0:
-                st, diff = S.energy_stop(X, res, thresh=o['energy'])
+            st, diff = S.energy_stop(X, X - proto, thresh=o['energy'])
+            if math.isfinite(float(diff)):
                 mg.see_stop(abs(float(diff) - o['energy']) / abs(o['energy']), '%senergy' % tag)
-                if st:
-                    flag = False
-                    exit_ += '+energy'
+            if st:
+                flag = False
+                exit_ += '+energy'
     return {'kind': 'ok', 'imf': proto.reshape(len(X), 1), 'flag': flag}, niters, exit_
 
 
@@ -360,7 +366,10 @@ def replay_mask(x, base, o, scale, mg, tol):
         first = run_gni(x, o)
         if first['kind'] == 'ok':
             v = np.abs(first['imf'][:, 0])
-            v = v[v > 0]
+            if np.array_equal(first['imf'][:, 0], X):
+                v = v[v > 0]        # the input itself came back: an exact zero stays an exact zero under rescaling
+            # otherwise a sample that is exactly 0 after mean removal (0.25 - 0.25) is an accident of rounding: sign() of it
+            # counts as two crossings here and as none / one after rescaling by a real factor
             if v.size:
                 mg.see_stop(float(v.min()) / scale, 'zero-crossing count of the unmasked first IMF')
             replay_gni(x, o, scale, mg, raw=True, tag='zc ')
